@@ -2870,7 +2870,8 @@ impl Translator {
                     self.collect_locals_stmt(statement, locals, mono);
                 }
             }
-            ExprKind::Match(_, arms) => {
+            ExprKind::Match(scrutinee, arms) => {
+                self.collect_locals_expr(scrutinee, locals, mono);
                 for arm in arms {
                     self.collect_locals_pat(&arm.pat, locals, mono);
                     self.collect_locals_stmt(&arm.stmt, locals, mono);
